@@ -91,7 +91,8 @@ StringDictionaryRPFC::StringDictionaryRPFC(IteratorDictString *it,
     {
       // Extracting the internal strings for Re-Pair compression
 
-      if ((ptrpdict + (size_t)(bucketsize * maxlength)) > reservedInts)
+      // every byte of the bucket yields at most two integers (a string end is stored as 255, 0)
+      while ((ptrpdict + 2 * (pend - pbeg) + 2) > reservedInts)
         reservedInts = Reallocate(&rpdict, reservedInts);
 
       // Stores the last position with 0 to avoid confusions with 0 values
@@ -124,7 +125,9 @@ StringDictionaryRPFC::StringDictionaryRPFC(IteratorDictString *it,
   bitsrp = rp->getBits();
 
   std::vector<size_t> intStrings;              // Encoded internal strings
-  std::vector<size_t> beginnings(buckets + 1); // Bucket beginnings
+  // One extra slot: when the last bucket is full, the closing assignment
+  // below lands one position after the entry of the last bucket.
+  std::vector<size_t> beginnings(buckets + 2); // Bucket beginnings
 
   size_t ibytes = 0;
   uint io = 0, strings = 0;
